@@ -88,3 +88,12 @@ def test_c19_default_arguments_are_not_shared():
     p = RadioControlProtocol(opcode=RCPOpcode.StatusChangeNotificationRequest)
     p.status_change_settings[StatusChangeNotificationTargets.RSSI] = StatusChangeNotificationSetting.ENABLE_NOTIFY
     assert RadioControlProtocol(opcode=RCPOpcode.StatusChangeNotificationRequest).status_change_settings == {}
+
+
+def test_c02_repair_of_deinterleaved_errorfree_codeword_is_identity():
+    from bitarray import bitarray
+    from okdmr.dmrlib.etsi.fec.bptc_196_96 import BPTC19696 as B
+
+    m = bitarray("110110100110111101001001101110111110101001111100010110000011100011000001111001100110001010011010")
+    d = B.deinterleave_all_bits(B.encode(m))
+    assert B.repair_if_necessary(bitarray(d), deinterleaved=True) == d
